@@ -249,6 +249,13 @@ mod regex_impl {
             }
         }
 
+        fn capture_names(&self) -> Vec<Option<String>> {
+            self.regex
+                .capture_names()
+                .map(|name| name.map(|n| n.to_string()))
+                .collect()
+        }
+
         fn replace_all(&self, input: &str, replacement: &str) -> Result<String, String> {
             let mut result = String::with_capacity(input.len());
             let mut last_end = 0;
